@@ -400,7 +400,15 @@ impl THistory {
                 self.record(Tree::L(v.to_vec()), topt(m.map(|m| b(&m))));
                 self.check_client_got(k, ch);
             }
-            222 | 223 | 224 | 225 | 226 | 227 | 229 | 230 => self.server_call(code, v, u),
+            222 | 223 | 224 | 225 | 226 | 227 | 229 | 230 | 233 => self.server_call(code, v, u),
+            234 => {
+                let k = u(1).unwrap_or(0);
+                let obs = match self.clients.get(&k) {
+                    Some(c) => l(vec![n(c.transport.client_id()), topt(c.transport.disconnect_reason().map(crate::nexec::creason_tree)), n(c.transport.time_since_last_received_packet().as_nanos() as u64)]),
+                    None => unresolved_tree(),
+                };
+                self.record(Tree::L(v.to_vec()), obs);
+            }
             228 => {
                 let k = u(1).unwrap_or(0);
                 let obs = match self.clients.get(&k) {
@@ -516,6 +524,15 @@ impl THistory {
             229 => {
                 t.set_max_clients(u(1).unwrap_or(0) as usize);
                 l(vec![])
+            }
+            233 => {
+                let ids = t.verif_netcode_server().clients_id();
+                l(vec![
+                    nu(t.connected_clients()),
+                    nu(t.max_clients()),
+                    l(t.addresses().iter().map(addr_tree).collect()),
+                    l(ids.iter().map(|id| l(vec![n(*id), topt(t.client_addr(*id).map(|a| addr_tree(&a))), topt(t.user_data(*id).map(|u| b(&u)))])).collect()),
+                ])
             }
             _ => {
                 rs.update(Duration::from_nanos(u(1).unwrap_or(0)));
